@@ -1,6 +1,10 @@
 import CoapVerif.Model.Observe
 import CoapVerif.Util
-/- Line-protocol driver for C11: replays an event history (harness/observe.c documents the format) through M. -/
+/- Line-protocol driver for C11: replays an event history (harness/observe.c documents the format) through M.
+   Lines with a block-wise resource (`R=…b<start>[/<szx>]…` or `B…`, events `blk:…`) are NOT modelled: M has no lg_xmit and no
+   deferral of a notification behind a block-wise transfer in progress.  Such a line is only validated (same syntax rules
+   as the harness, malformed → `bad-op`) and answered with the fixed marker `M not-modelled blockwise`; props/C11.py then
+   judges the implementation's trace with the oracle alone. -/
 -- DRIVER-OPS: obs => Coap.Driver.Observe.step
 namespace Coap.Driver.Observe
 open Coap Coap.Observe
@@ -92,6 +96,43 @@ def replay (st : State) (ncli : Nat) : List Event → List String
     let (st1, outs) := Coap.Observe.step st e
     (String.intercalate " " (outs.map showOut) ++ showState st1 ncli) :: replay st1 ncli es
 
+/-- `b<start>` or `b<start>/<szx>`, szx ≤ 6 (`B…`: the same with NOTIFY_CON): a block-wise resource (not modelled) -/
+def isBlockRes (s : String) : Bool := s.startsWith "b" || s.startsWith "B"
+
+def validBlockRes (s : String) : Bool :=
+  match ((s.drop 1).toString).splitOn "/" with
+  | [start] => start.toNat?.isSome
+  | [start, szx] => start.toNat?.isSome && (szx = "0" || szx = "1" || szx = "2" || szx = "3" || szx = "4" || szx = "5" || szx = "6")
+  | _ => false
+
+def validRes (id : Nat) (s : String) : Bool :=
+  if isBlockRes s then validBlockRes s else (parseRes id s).isSome
+
+/-- `blk:c:r:t:q:k:mid:num` — only on a block-wise resource -/
+def validBlk (f : List String) (ncli : Nat) (rs : List String) : Bool :=
+  match f with
+  | [c, r, t, q, k, mid, num] =>
+    match c.toNat?, r.toNat?, t.toNat?, q.toNat?, parseKind k, mid.toNat?, num.toNat? with
+    | some c, some r, some t, some q, some _, some mid, some num =>
+      decide (c < ncli ∧ r < rs.length ∧ t ≤ 255 ∧ q ≤ 2 ∧ mid ≤ 65535 ∧ num ≤ 255) && isBlockRes (rs.getD r "")
+    | _, _, _, _, _, _, _ => false
+  | _ => false
+
+def validEventB (s : String) (ncli : Nat) (rs : List String) : Bool :=
+  match s.splitOn ":" with
+  | "blk" :: f => validBlk f ncli rs
+  | _ => (parseEvent s ncli rs.length).isSome
+
+/-- the answer for a line with a block-wise resource: validated, never replayed -/
+def stepBlockwise (st nc : String) (rs evs : List String) : String :=
+  match st.toNat?, nc.toNat? with
+  | some st, some ncli =>
+    if st < 1 ∨ ncli < 1 ∨ ncli > 4 ∨ rs.length < 1 ∨ rs.length > 3 then "bad-op"
+    else if !(((List.range rs.length).zip rs).all fun (i, r) => validRes i r) then "bad-op"
+    else if !(evs.all fun e => validEventB e ncli rs) then "bad-op"
+    else "M not-modelled blockwise"
+  | _, _ => "bad-op"
+
 def dropPrefix (s p : String) : Option String :=
   if s.startsWith p then some (s.drop p.length).toString else none
 
@@ -101,6 +142,7 @@ def step (args : List String) : String :=
   | a :: b :: c :: evs =>
     match dropPrefix a "st=", dropPrefix b "R=", dropPrefix c "C=" with
     | some st, some rs, some nc =>
+      if (rs.splitOn ",").any isBlockRes then stepBlockwise st nc (rs.splitOn ",") evs else
       match st.toNat?, parseResList 0 (rs.splitOn ","), nc.toNat? with
       | some st, some res, some ncli =>
         if st < 1 ∨ ncli < 1 ∨ ncli > 4 ∨ res.length < 1 ∨ res.length > 3 then "bad-op" else
